@@ -4,15 +4,21 @@
 
    FULL STATEMENT  C19_concurrent_as_sequential (Spec/BuildSpec.v): valid definitions, any history, any pool of calls, ANY
    schedule: every finished call returned the outcome over the complete table and so do all probes afterwards.
-   FALSE of the faithful model: C19_refuted (general), C19_refuted_build (KF-21), C19_refuted_chain (KF-20's window).
+   FALSE of the faithful model: C19_refuted (general), C19_refuted_build (KF-21: racing the first build).
+   PROVED: C19_built -- once the function has been built by a completed call, ANY schedule over ANY number of threads
+   calling with ANY keys (resolved or not: racing cache misses for equal and different keys, racing call_next chains)
+   returns the outcomes over the complete table and leaves a state in which every later probe does too (invariant:
+   every step of a call keeps the table consistent -- the first-rank entry is written last since the repair of KF-20 --
+   and each thread's own invariant is stable under the other threads' steps, which only add entries with the values
+   resolution determines; induction over the schedule).
    PROVED: C19_warm -- on the decidable domain [warm K s] (built; first-rank entries of the keys in K present, i.e. their
-   resolutions have completed), ANY schedule over ANY number of threads calling with keys in K leaves the shared state
-   untouched and puts every thread exactly where it would be running alone (hence: same results as sequentially).
+   resolutions have completed), for ANY chain/method parameters, ANY schedule over ANY number of threads calling with keys in
+   K leaves the shared state untouched and puts every thread exactly where it would be running alone.
    NOT EXHIBITED by the model: atomicity inside one source line -- pre-emption inside a line is assumed equivalent to
    pre-emption at one of its boundaries; each dictionary operation is assumed atomic (GIL). *)
 From Coq Require Import List Bool Arith.
 Import ListNotations.
-From OvldV Require Import Model.BuildM Spec.BuildSpec Proofs.BuildBase Proofs.BuildPar Proofs.BuildWit.
+From OvldV Require Import Model.BuildM Spec.BuildSpec Proofs.BuildBase Proofs.BuildSeq Proofs.BuildPar Proofs.BuildWit.
 
 Theorem C19_warm : forall chain meth K s, warm K s = true ->
   forall ops sch, forallb (call_in K) ops = true ->
@@ -50,13 +56,29 @@ Theorem C19_refuted_build :
 Proof. exact wit_build_race. Qed.
 Print Assumptions C19_refuted_build.
 
-(* KF-20's window observed by another thread *)
-Theorem C19_refuted_chain :
-  nth 1 (map result_of (snd (run_schedule wchain wmeth s_built1 [start (OCall 0); start (OCall 0)] sch_chain))) None
-    = Some ([0], RErr ENoMethod) /\
+(* the full statement restricted to functions that have been built: hypotheses on the parameters as in C18
+   (candidates are registered handlers, each once; bodies using call_next are rewritten) *)
+Theorem C19_built : forall chain meth,
+  ((forall regs k, NoDup regs -> NoDup (handlers (chain regs k))) /\ (forall regs k h, In h (handlers (chain regs k)) -> In h regs)) ->
+  (forall l, m_body (meth l) = BNext -> m_recoded (meth l) = true) ->
+  forall D, NoDup D -> all_ok meth D = true ->
+  forall k0 ks0 fuel0 xs0, snd (run_ops chain meth fuel0 (init D) (map OCall (k0 :: ks0))) = map Some xs0 ->
+  let s := fst (run_ops chain meth fuel0 (init D) (map OCall (k0 :: ks0))) in
+  forall ks sch, let r := run_schedule chain meth s (map (fun k => start (OCall k)) ks) sch in
+  (forall i k x, nth_error ks i = Some k -> option_map result_of (nth_error (snd r) i) = Some (Some x) ->
+     x = spec_call chain meth D k) /\
+  forall ps fuel xs, probes chain meth fuel (fst r) ps = map Some xs -> xs = map (spec_call chain meth D) ps.
+Proof. exact (fun chain meth HC HM => built_threads chain meth (proj1 HC) (proj2 HC) HM). Qed.
+Print Assumptions C19_built.
+
+(* the former KF-20 window observed by another thread (repaired): thread 0 is pre-empted after its first write, thread 1
+   resolves the same key itself; both return the complete-table outcome *)
+Theorem C19_chain_window_safe :
+  map result_of (snd (run_schedule wchain wmeth s_built1 [start (OCall 0); start (OCall 0)] sch_chain))
+    = [Some ([0; 1], RRet); Some ([0; 1], RRet)] /\
   all_ok wmeth (s_defs s_built1) = true /\ spec_call wchain wmeth (s_defs s_built1) 0 = ([0; 1], RRet).
-Proof. exact wit_chain_race. Qed.
-Print Assumptions C19_refuted_chain.
+Proof. exact wit_chain_window. Qed.
+Print Assumptions C19_chain_window_safe.
 
 Example C19_warm_inhabited :
   let s := fst (run_ops wchain wmeth 100 (init [0; 1; 2]) [OCall 0; OCall 1]) in
